@@ -136,21 +136,22 @@ def run(ctx: Ctx):
     ctx.check("stiff_states" in f.params, "R07.b", f.key("param"), "hybrid builder has a stiff_states parameter", "hybrid_rush_larsen has no stiff_states parameter", f.where())
     others = [mm.func.name for nm, mm in models.items() if nm != name and "stiff_states" in mm.func.params]
     ctx.check(not others, "R07.b", f.key("only-hybrid"), "no other builder takes stiff_states", f"other builders take stiff_states: {others}", f.where())
-    from .c18 import check_call_forwarding, commands, resolve_dispatch
-    from sa.sm import walk_no_nested
+    from .c18 import check_value_forwarding, dispatched_calls, get_code_calls
 
-    for cmd in commands(ctx):
-        for c in walk_no_nested(cmd.node):
-            if isinstance(c, ast.Call):
-                mm = resolve_dispatch(ctx, cmd, c)
-                if mm is not None and mm.name == "main" and "stiff_states" in mm.params:
-                    check_call_forwarding(ctx, "R07.b", cmd, c, mm, skip=set(mm.params) - {"stiff_states", "delta", "scheme"})
+    for cname, (cmd, calls, _log, _err) in dispatched_calls(ctx).items():
+        by_node: dict[int, list] = {}
+        for val, mm, node in calls or []:
+            if "stiff_states" in mm.params:
+                by_node.setdefault(id(node), []).append((val, mm))
+        for group in by_node.values():
+            mm = group[0][1]
+            check_value_forwarding(ctx, "R07.b", cmd, [v for v, _m in group], mm, None, skip=set(mm.params) - {"stiff_states", "delta", "scheme"})
     for short in ("cli/gotran2py.py", "cli/gotran2c.py"):
         mainf = sm.func(short, "main")
         gcf = sm.func(short, "get_code")
-        gcc = [c for c in find_calls(mainf.node, "get_code")]
-        if gcc:
-            check_call_forwarding(ctx, "R07.b", mainf, gcc[0], gcf, skip=set(gcf.params) - {"stiff_states", "delta", "scheme"})
+        gvals = get_code_calls(ctx, short)
+        if gvals:
+            check_value_forwarding(ctx, "R07.b", mainf, gvals, gcf, None, skip=set(gcf.params) - {"stiff_states", "delta", "scheme"})
     for short in ("cli/gotran2py.py", "cli/gotran2c.py"):
         g = sm.func(short, "get_code")
         calls = [c for c in find_calls(g.node, "add_schemes")]
